@@ -322,4 +322,68 @@ theorem openInner_orig_neg1 (P : Prims) :
     ne_eq, not_true_eq_false]
   decide
 
+/-! ### an accepted packet is a sealing -/
+
+/-- an accepted packet's decrypted data is the plaintext of the accepted message plus padding -/
+theorem accepted_plaintext {P : Prims} {key data : Bytes} {m : Msg} {dec : Bytes}
+    (a : Accepted P key data m dec) :
+    Spec.plaintext m ++ dec.drop (32 + m.body.length) = dec := by
+  have hin := a.inside
+  have l (off n : Nat) (h : off + n ≤ dec.length) : leBytes (fromLE (Spec.substr dec off n)) n = Spec.substr dec off n := by
+    have := leBytes_fromLE (Spec.substr dec off n)
+    rwa [substr_length dec off n h] at this
+  have s0 := drop_eq_take_append_drop dec 0 8
+  have s1 := drop_eq_take_append_drop dec 8 8
+  have s2 := drop_eq_take_append_drop dec 16 8
+  have s3 := drop_eq_take_append_drop dec 24 4
+  have s4 := drop_eq_take_append_drop dec 28 4
+  have s5 := drop_eq_take_append_drop dec 32 m.body.length
+  rw [plaintext_append, a.salt, a.sid, a.mid, a.seq, ← a.declared, l 0 8 (by omega), l 8 8 (by omega),
+    l 16 8 (by omega), l 24 4 (by omega), l 28 4 (by omega), a.declared]
+  rw [← a.body] at s5
+  simp only [List.drop_zero, Nat.zero_add, Nat.reduceAdd] at s0 s1 s2 s3 s4
+  rw [← s5, ← s4, ← s3, ← s2, ← s1, ← s0]
+
+theorem accepted_wf {P : Prims} {key data : Bytes} {m : Msg} {dec : Bytes}
+    (a : Accepted P key data m dec) : m.WF := by
+  have hin := a.inside
+  have b (off n : Nat) (h : off + n ≤ dec.length) : fromLE (Spec.substr dec off n) < 256 ^ n := by
+    have := fromLE_lt (Spec.substr dec off n)
+    rwa [substr_length dec off n h] at this
+  refine ⟨?_, ?_, ?_, ?_, a.len31⟩
+  · rw [a.salt]; simpa using b 0 8 (by omega)
+  · rw [a.sid]; simpa using b 8 8 (by omega)
+  · rw [a.mid]; simpa using b 16 8 (by omega)
+  · rw [a.seq]; simpa using b 24 4 (by omega)
+
+/-- an accepted packet is the server-direction sealing of the accepted message -/
+theorem accepted_sealing {P : Prims} (hP : P.Ok) {key data : Bytes} {m : Msg} {dec : Bytes}
+    (a : Accepted P key data m dec) :
+    data = Spec.serverSeal P key m (dec.drop (32 + m.body.length)) ∧
+    (32 + m.body.length + (dec.drop (32 + m.body.length)).length) % 16 = 0 := by
+  have hrec := accepted_plaintext a
+  have hin := a.inside
+  have hkv := keyIv_length hP 8 key ((data.drop 8).take 16)
+  have hdl : (data.drop 24).length = data.length - 24 := by simp
+  have h40 := a.len40
+  have hpos : 0 < (data.drop 24).length := by omega
+  have hdeclen : dec.length = (data.drop 24).length := by
+    rw [a.dec_eq]; exact hP.igeD_len _ _ _ hkv.1 hkv.2 hpos a.aligned
+  have hED := hP.igeE_igeD _ _ (data.drop 24) hkv.1 hkv.2 hpos a.aligned
+  rw [← a.dec_eq] at hED
+  have htake : dec.take (32 + m.body.length) = Spec.plaintext m := by
+    conv => lhs; rw [← hrec]
+    exact List.take_left' (plaintext_length m)
+  have hmk : Spec.msgKeyOf P (Spec.plaintext m) = (data.drop 8).take 16 := by
+    rw [← msgKey_eq_spec, msgKey, ← htake]; exact a.msgkey
+  refine ⟨?_, ?_⟩
+  · unfold Spec.serverSeal Spec.sealDir
+    simp only [hmk, hrec, hED, ← authKeyId_eq_spec, ← a.keyid]
+    have s0 := drop_eq_take_append_drop data 8 16
+    simp only [Spec.substr] at s0
+    rw [List.append_assoc, ← s0, List.take_append_drop]
+  · simp only [List.length_drop]
+    have : 32 + m.body.length + (dec.length - (32 + m.body.length)) = dec.length := by omega
+    rw [this, hdeclen]; exact a.aligned
+
 end Mtv.Envelope
